@@ -12,7 +12,7 @@ def broadcast : Role := { hasAddrOnlyBranch := true, rejectedPorts := [0], defau
 def broadcastOmitPort : Option Nat := (some 60000)
 
 def listenRegexes : List String := ["[0-9]{1,3}\\.[0-9]{1,3}\\.[0-9]{1,3}\\.[0-9]{1,3}:[0-9]{1,5}"]
-def listen : Role := { hasAddrOnlyBranch := false, rejectedPorts := [0], defaultPort := 0 }
+def listen : Role := { hasAddrOnlyBranch := false, rejectedPorts := [0, 60000], defaultPort := 0 }
 def listenOmitPort : Option Nat := none
 
 def controllerRegexes : List String := ["[0-9]{1,3}\\.[0-9]{1,3}\\.[0-9]{1,3}\\.[0-9]{1,3}:[0-9]{1,5}", "[0-9]{1,3}\\.[0-9]{1,3}\\.[0-9]{1,3}\\.[0-9]{1,3}"]
